@@ -445,6 +445,9 @@ package main
 
 // A user's own {sub} / {set sub}. Ownership exists only on group topics (established by the topic constructors).
 //@ func (t *Topic) thisUserSub(sess *Session, pkt *ClientComMessage, asUid types.Uid, asChan bool, want string, private any) (res *MsgAccessMode, err error)
+// (C02/C03: whoever gets through a {sub} has a live subscription entry - a returning p2p participant is no longer marked
+// deleted, with or without an explicit mode - so pushes and the write check treat the user as subscribed)
+//@   ensures [C02,C03] subscribed_means_not_deleted: err == nil && (asUid in t.perUser) ==> !t.perUser[asUid].deleted
 //@   ensures [C13] failure_is_answered: err != nil && !old((asUid in t.perUser) && !t.perUser[asUid].deleted && hasO(t.perUser[asUid].modeGiven) && !hasO(t.perUser[asUid].modeWant)) ==> outTotal > old(outTotal)
 // (accepting an ownership transfer: a store failure after the requester's own row was updated returns without a reply -
 // known finding, an existing test pins the silence)
@@ -470,6 +473,9 @@ package main
 //@   ensures [C03,C07] join_gate: err == nil && (asUid in t.perUser) ==> hasJ(t.perUser[asUid].modeGiven) || !hasJ(t.perUser[asUid].modeWant)
 //@   ensures [C07] p2p_modes: t.cat == types.TopicCatP2P && (asUid in t.perUser) && t.perUser[asUid].modeWant != old(t.perUser[asUid].modeWant) ==> (t.perUser[asUid].modeWant & ^types.ModeCP2P) == 0 && (t.perUser[asUid].modeWant & types.ModeApprove) != 0
 //@   assert at call store.SubsPersistenceInterface.Create [C07] previous_grant_restored: !old(asUid in t.perUser) && !asChan && t.cat != types.TopicCatP2P && t.cat != types.TopicCatSys && gotFound && gotGiven != types.ModeUnset ==> len($1) == 1 && $1[0].ModeGiven == gotGiven
+// (C06/C08: when ownership moves, the row written for the previous owner has no O in either mode - the store must not
+// keep a second owner that a reload would bring back)
+//@   assert at call store.SubsPersistenceInterface.Update [C06,C08] previous_owner_stored_without_O: $2 != asUid ==> $2 == t.owner && ("ModeGiven" in $3) && ("ModeWant" in $3) && !hasO(dynval($3["ModeGiven"], types.AccessMode)) && !hasO(dynval($3["ModeWant"], types.AccessMode))
 //@   assert at call store.SubsPersistenceInterface.Update#1 [C08] given_written: ("ModeGiven" in $3) == (userData.modeGiven != old(t.perUser[asUid].modeGiven))
 //@   assert at call store.SubsPersistenceInterface.Update#1 [C08] want_written: ("ModeWant" in $3) == (userData.modeWant != old(t.perUser[asUid].modeWant))
 //@   ensures [C08] written_through: err == nil && old((asUid in t.perUser) && !t.perUser[asUid].deleted) && (asUid in t.perUser) && (t.perUser[asUid].modeGiven != old(t.perUser[asUid].modeGiven) || t.perUser[asUid].modeWant != old(t.perUser[asUid].modeWant)) ==> subUpdates > old(subUpdates)
